@@ -58,10 +58,10 @@ def leg_a(d, tier, timeout, bounds_file):
                  env=dict(_sw(), CT_TIER=tier, CT_OUT=cases, CT_BOUNDS=bounds_file),
                  workers=8, timeout=timeout, extra=["-continue", "-seed", str(vlib.seed())],
                  name="mc-committx-%s%s" % (tier, "-private" if PRIVATE else ""))
-    m = re.search(r'<<"CT_MATRIX", (\d+), (\d+)>>', r["out"])
+    m = re.search(r'<<"CT_MATRIX", (\d+), (\d+), (\d+)>>', r["out"])
     if not m:
         raise vlib.ToolError("MC_CommitTx printed no matrix statistics:\n" + r["out"][-2000:])
-    r["matrix"] = {"bases": int(m.group(1)), "cases": int(m.group(2))}
+    r["matrix"] = {"bases": int(m.group(1)), "cases": int(m.group(2)), "retries": int(m.group(3))}
     if "TypeOK" in r["violated"]:
         raise vlib.ToolError("MC_CommitTx: TypeOK violated")
     r["cases_file"] = cases
@@ -92,6 +92,8 @@ def _one(m):
 
 def _mut_name(v):
     m, w = v.get("m"), v.get("w")
+    if v.get("ep"):
+        return "retry.%s.%s" % (v["ep"], v["kind"])
     if m is None:
         return "semantic"
     s = _one(m)
@@ -111,8 +113,12 @@ def finding_key(v):
     # only when the first is an ordinary value
     dn = [(f, v["S"].get(n)) for f, n in (("hdelay", "hdn"), ("cdelay", "cdn")) if v["S"].get(n) in ("min", "max")]
     edges = (["wide_vout"] if v["S"]["fo"]["i"] > 65535 else []) + ["%s=%s" % x for x in dn[:1]]
+    if v.get("ep"):
+        # a second request for an already signed number: neither the delay class of the setup nor the history
+        # of the base's raw requests distinguishes the finding
+        edges = edges[:1] if edges[:1] == ["wide_vout"] else []
     edge = ",".join(edges) or "-"
-    return "%s:%s:%s:%s%s" % (kinds, rules, _mut_name(v), edge, "" if v["hist"] == "fresh" else ":" + v["hist"])
+    return "%s:%s:%s:%s%s" % (kinds, rules, _mut_name(v), edge, "" if v["hist"] == "fresh" or v.get("ep") else ":" + v["hist"])
 
 
 def _base_line(cases_file, b):
@@ -127,7 +133,7 @@ def _base_line(cases_file, b):
 
 def _violations(rep, cases_file):
     out, seen = [], set()
-    for v in list(rep["base_violations"]) + list(rep["violations"]):
+    for v in list(rep["base_violations"]) + list(rep["retry_violations"]) + list(rep["violations"]):
         key = finding_key(v)
         if key in seen:
             continue
@@ -137,7 +143,14 @@ def _violations(rep, cases_file):
             raise vlib.ToolError("violating record refers to an unknown base %s" % v["b"])
         # the replay is the base with the one violating request (a semantic violation needs none)
         base["muts"] = [x for x in base["muts"] if x["id"] == v["id"]]
-        if v["id"] == 0:
+        base["retries"] = [x for x in base["retries"] if x["id"] == v["id"]]
+        if v.get("ep"):
+            what = "%s entry point, RETRY of %s/%s n=%s with %s: %s; expected %s; first response %s; retry response %s; " \
+                   "recorded content afterwards %s" % (
+                       v["ep"], v["name"], v["ct"], v["C"]["n"], v["kind"], ", ".join(v["kinds"]), v["expected"],
+                       json.dumps(v["first"], sort_keys=True)[:200], json.dumps(v["resp"], sort_keys=True)[:300],
+                       json.dumps(v["recorded"], sort_keys=True)[:200])
+        elif v["id"] == 0:
             what = "semantic entry point %s/%s (%s): %s; sem=%s retry=%s" % (
                 v["name"], v["ct"], v["hist"], ", ".join(v["kinds"]), json.dumps(v["sem"], sort_keys=True)[:300],
                 json.dumps(v["sem2"], sort_keys=True)[:200])
@@ -168,8 +181,9 @@ def run(pid, tier):
     # ---- bind: every case through the real entry points
     lf = os.path.join(d, "log.ndjson")
     runb = run_impl(binpath, a["cases_file"], lf)
-    if runb.get("raw", 0) + runb.get("skipped", 0) != a["matrix"]["cases"] or runb.get("bases") != a["matrix"]["bases"]:
-        raise vlib.ToolError("the harness executed %s of %s cases" % (runb.get("raw"), a["matrix"]["cases"]))
+    done = runb.get("raw", 0) + runb.get("retries", 0) + runb.get("skipped", 0)
+    if done != a["matrix"]["cases"] + a["matrix"]["retries"] or runb.get("bases") != a["matrix"]["bases"]:
+        raise vlib.ToolError("the harness executed %s of %s requests" % (done, a["matrix"]["cases"] + a["matrix"]["retries"]))
 
     # ---- leg B: TLC re-judges every logged concrete case
     b = judge(d, "B", lf)
@@ -181,13 +195,15 @@ def run(pid, tier):
         raise vlib.ToolError("vacuity guard: rules that were never the sole reason of a real refusal: %s" % rep["uncovered"])
     if not rep["granted_canonical_request"] or not rep["sem_ok"] or not rep["htlc_sigs"]:
         raise vlib.ToolError("vacuity guard: no canonical request was granted / no signature was returned")
+    if not rep["retries_identical_same_signatures"] or not rep["retries_changed_refused"]:
+        raise vlib.ToolError("vacuity guard (retries): no identical retry returned the first signatures / no changed retry was refused")
     viols = _violations(rep, a["cases_file"])
     if bool(viols) != bool(b["violated"]):
         raise vlib.ToolError("ImplCommitTx: invariant verdict %s and report (%d violations) disagree" % (b["violated"], len(viols)))
     code, unknown, known = vlib.verdict(pid, viols)
     if rep["ndivergent"]:
         log("[C04] NOTE: %d real verdicts differ from the code-shaped StepRaw / StepSem of CommitTx.tla (the "
-            "specification needs updating; not a property violation): %s" % (rep["ndivergent"], json.dumps(rep["divergence_kinds"] + rep["base_divergence_kinds"])))
+            "specification needs updating; not a property violation): %s" % (rep["ndivergent"], json.dumps(rep["divergence_kinds"] + rep["base_divergence_kinds"] + rep["retry_divergence_kinds"])))
 
     samples = [{"base": s["name"], "commitment_type": s["ct"], "mutation": _mut_name(s), "submitted_transaction": s["tx"],
                 "reference_rules_broken": s["rules"], "real": s["resp"]} for s in rep["sample"]]
@@ -205,15 +221,22 @@ def run(pid, tier):
                 "real_verdict_tags": rep["real_tags"], "violating_records": rep["nviolations"],
                 "impl_stricter": rep["nstricter"], "impl_stricter_kinds": rep["stricter_kinds"],
                 "spec_divergences": rep["ndivergent"],
-                "spec_divergence_kinds": rep["divergence_kinds"] + rep["base_divergence_kinds"],
+                "spec_divergence_kinds": rep["divergence_kinds"] + rep["base_divergence_kinds"] + rep["retry_divergence_kinds"],
+                "retries_judged": rep["retries"], "retries_accepted": rep["retries_accepted"],
+                "retries_identical_accepted": rep["retries_identical_accepted"],
+                "retries_identical_with_the_first_signatures": rep["retries_identical_same_signatures"],
+                "retries_changed_refused": rep["retries_changed_refused"],
+                "retries_changed_accepted": rep["retries_changed_accepted"],
+                "retries_after_which_the_recorded_content_changed": rep["retries_recorded_changed"],
+                "retry_verdicts": rep["retry_kinds"],
                 "sole_reason_refusals_per_rule": rep["sole"], "rules_never_sole_reason": rep["uncovered"],
                 "panics_recorded": runb.get("panics"), "tlc_states": b["distinct"], "wall_s": round(b["wall_s"], 1)},
         },
         "states": max(1, a["distinct"] + b["distinct"]),
         "transitions": max(1, a["states"] + b["states"]),
-        "traces_validated_against_impl": rep["raw"] + rep["bases"],
+        "traces_validated_against_impl": rep["raw"] + rep["bases"] + rep["retries"],
         "samples": samples or [{"note": "no sample"}],
-        "evaluations": rep["raw"] + rep["bases"],
+        "evaluations": rep["raw"] + rep["bases"] + rep["retries"],
         "distinct_nontrivial": rep["distinct_nontrivial"],
         "rule": "one evaluation = one request submitted to a real entry point (semantic per base, raw per mutation) and "
                 "re-judged by TLC on its logged concrete values; distinct = distinct (setup, content, history, submitted "
@@ -273,8 +296,10 @@ def replay(pid, obj):
                                                                         json.dumps(e["sem2"], sort_keys=True)))
         elif e["k"] == "raw":
             print("  raw  %s -> %s" % (_mut_name(e), json.dumps(e["resp"], sort_keys=True)))
+        elif e["k"] == "retry":
+            print("  %s -> %s ; recorded %s" % (_mut_name(e), json.dumps(e["resp"], sort_keys=True), json.dumps(e["rec"], sort_keys=True)))
     rep = r["report"]
-    keys = {finding_key(v) for v in list(rep["base_violations"]) + list(rep["violations"])}
+    keys = {finding_key(v) for v in list(rep["base_violations"]) + list(rep["retry_violations"]) + list(rep["violations"])}
     if r["violated"] and (obj.get("key") in keys or not obj.get("key")):
         print("VIOLATION property=%s replay=%s" % (pid, "(reproduced)"))
         return 1
